@@ -89,6 +89,8 @@ pub enum Meta {
     NonMinimalExpiry,
     NotUtf8,
     NotBolt11,
+    /// 33001 holds this (valid UTF-8, non-ASCII, not an invoice) string
+    GarbageInvoice(String),
     /// TLV 16 present with these raw bytes as value
     RawMeta(Hx),
     /// no TLV 16 at all
@@ -383,6 +385,7 @@ impl Scenario {
             }
             Meta::NotUtf8 => encode_stream(&[(TLV_INVOICE, vec![0xff, 0xfe, 0x80, 0x6c, 0x6e]), (TLV_AMOUNT, tu64_min(p.tlv_amount))]),
             Meta::NotBolt11 => encode_stream(&[(TLV_INVOICE, b"lnbc1notaninvoice".to_vec()), (TLV_AMOUNT, tu64_min(p.tlv_amount))]),
+            Meta::GarbageInvoice(g) => encode_stream(&[(TLV_INVOICE, g.clone().into_bytes()), (TLV_AMOUNT, tu64_min(p.tlv_amount))]),
             Meta::RawMeta(b) => b.0.clone(),
             Meta::Absent => return None,
             Meta::LenPrefixed { with_invoice } => {
@@ -478,6 +481,9 @@ impl Scenario {
         let p = self.htlc_payment(h);
         let (inv_kind, amount_field): (InvKind, Option<Vec<u8>>) = match &h.meta {
             Meta::Absent | Meta::NotUtf8 | Meta::NotBolt11 | Meta::BadSig => return Class::NonTrampoline,
+            Meta::GarbageInvoice(g) => {
+                return if g.parse::<Bolt11Invoice>().is_err() { Class::NonTrampoline } else { Class::Unknown };
+            }
             Meta::LenPrefixed { .. } => return Class::NonTrampoline,
             Meta::RawMeta(b) => {
                 // unusable iff a strict decode fails or yields no 33001; anything else is not judged
@@ -679,6 +685,7 @@ struct SetPlan {
     kinds: Vec<u32>,
     kind_args: Vec<u64>,
     raw: Vec<Vec<u8>>,
+    garbage: Vec<String>,
 }
 
 fn set_plan(p: &Profile) -> impl Strategy<Value = SetPlan> {
@@ -692,8 +699,9 @@ fn set_plan(p: &Profile) -> impl Strategy<Value = SetPlan> {
         proptest::collection::vec(0u32..100, p.max_parts),
         proptest::collection::vec(any::<u64>(), p.max_parts),
         proptest::collection::vec(raw_bytes_strategy(), p.max_parts),
+        proptest::collection::vec(garbage_invoice_strategy(), p.max_parts),
     )
-        .prop_map(move |(parts, f, split, declared, expiry_rel, kinds, kind_args, raw)| SetPlan {
+        .prop_map(move |(parts, f, split, declared, expiry_rel, kinds, kind_args, raw, garbage)| SetPlan {
             parts,
             funding: if f < w_under { 2 + (f % 2) as u8 } else if f < w_under + 15 { 1 } else if f < w_under + 20 { 4 } else { 0 },
             split,
@@ -702,11 +710,27 @@ fn set_plan(p: &Profile) -> impl Strategy<Value = SetPlan> {
             kinds,
             kind_args,
             raw,
+            garbage,
         })
 }
 
 /// Malformed / arbitrary TLV byte strings: truncated varints at every width,
 /// oversized lengths, dangling bytes, plain noise.
+/// Strings that are valid UTF-8 with multi-byte characters at varying offsets and no invoice
+pub fn garbage_invoice_strategy() -> impl Strategy<Value = String> {
+    (0usize..80, proptest::collection::vec(proptest::sample::select(&['a', 'l', 'n', '1', 'é', 'ß', '✓', '日', '🎉', ' '][..]), 0..60), any::<bool>()).prop_map(|(pad, tail, prefix)| {
+        let mut s = String::new();
+        if prefix {
+            s.push_str("lnbc1");
+        }
+        for _ in 0..pad {
+            s.push('q');
+        }
+        s.extend(tail);
+        s
+    })
+}
+
 pub fn raw_bytes_strategy() -> impl Strategy<Value = Vec<u8>> {
     let sym = prop_oneof![5 => proptest::sample::select(&[0u8, 1, 2, 4, 8, 16, 0x10, 0xfc, 0xfd, 0xfe, 0xff, 0x80][..]), 2 => any::<u8>()];
     prop_oneof![
@@ -806,7 +830,7 @@ fn build_htlcs(cfg: &Cfg, payments: &[PaymentSpec], plans: &[SetPlan], prof: &Pr
                     }
                     0 => h.forward = true,
                     1 => h.meta = Meta::Absent,
-                    2 => h.meta = Meta::NotBolt11,
+                    2 => h.meta = if arg % 12 < 6 { Meta::NotBolt11 } else { Meta::GarbageInvoice(plan.garbage[i].clone()) },
                     3 => h.meta = Meta::BadSig,
                     _ => h.meta = Meta::LenPrefixed { with_invoice: arg % 2 == 0 },
                 }
